@@ -69,9 +69,6 @@ theorem writeBuffer_refines {b d : LB α} {q qd : Q α} (hRb : R b q) (hRd : R d
         exact ⟨hn.1, fun hh => by omega, fun h => (by cases h), fun _ => ⟨a1, a2, fun hh => by omega⟩,
           fun h => by cases h⟩
     · intro _ c cp hc
-      have := hRb.cache hd c cp hc
-      show c <+: ((q.items ++ qd.items).filter (·.2)).map (·.1)
-      rw [List.filter_append, List.map_append]
-      exact List.IsPrefix.trans this (List.prefix_append _ _)
+      exact leadBytes_prefix_append q _ c (hRb.cache hd c cp hc)
 
 end Netpoll.Buf
